@@ -35,7 +35,13 @@ bool Value::extract_values(std::vector<std::vector<uint8_t>>& values) {
     std::vector<uint8_t> vch;
     while (pc != s.end()) {
         if (!s.GetOp(pc, opcode, vch)) return false;
-        if (vch.size() == 0) return false; // we only allow push operations here
+        if (vch.size() == 0) {
+            // the small numbers 0..16 compile to OP_0 / OP_1..OP_16, which carry no push data: take them for the number
+            // they push; any other non-push opcode has no value
+            if (opcode == OP_0) { /* the empty vector: zero */ }
+            else if (opcode >= OP_1 && opcode <= OP_16) vch.push_back((uint8_t)(opcode - (OP_1 - 1)));
+            else return false; // we only allow push operations here
+        }
         values.push_back(vch);
     }
     return true;
